@@ -160,7 +160,20 @@ func runCollector(r *rand.Rand, n int, outDir string, sum *emit.Summary) (terms 
 		}
 		col := collector.NewResourceStatusCollector(set)
 		ch := make(chan event.Event)
-		done := col.Listen(ch)
+		// every other history is consumed through an observer (how cmd/status follows the collector):
+		// it must be told about every event, after the event has been taken into the collector
+		var done <-chan collector.ListenerResult
+		notified, early := 0, 0
+		if c%2 == 0 {
+			done = col.Listen(ch)
+		} else {
+			done = col.ListenWithObserver(ch, collector.ObserverFunc(func(rsc *collector.ResourceStatusCollector, e event.Event) {
+				notified++
+				if rsc.LastEventType != e.Type || (e.Type == event.ResourceUpdateEvent && rsc.ResourceStatuses[e.Resource.Identifier] != e.Resource) {
+					early++
+				}
+			}))
+		}
 		var results []merr
 		var wg sync.WaitGroup
 		wg.Add(1)
@@ -196,6 +209,9 @@ func runCollector(r *rand.Rand, n int, outDir string, sum *emit.Summary) (terms 
 		if hang {
 			sum.ImplFailures = append(sum.ImplFailures, "collector did not accept an event within 5s")
 			continue
+		}
+		if c%2 == 1 && (notified != len(es) || early != 0) {
+			sum.ImplFailures = append(sum.ImplFailures, fmt.Sprintf("collector observer: %d events, %d notifications, %d of them before the event was recorded (ids=%v)", len(es), notified, early, ids))
 		}
 		obs := col.LatestObservation()
 		var sts, est, rst []string
